@@ -12,7 +12,7 @@ From Coq Require Import ZArith List String Bool.
 From Gigue Require Import Types Bits Isa Enc GenTables Builder BuilderTies Samplers Generator Machine MachineLemmas
   SplitProofs FragProofs GenLemmas ImageSem CtorSpec C12Defs C12Proofs GenWF GenWFProps
   BodyExec FrameExec CodeMem GenWF5 GenWF6 CallFrame MethodContract CallFrameRimi MethodContractRimi SaveRestore TrampExec TrampsInv TrampStubs WholeImage Loader
-  WholeImageRimi LoaderRimi RimiFullExec WholeImageRimiFull LoaderRimiFull Witness LoaderWitness LoaderWitnessRimi.
+  WholeImageRimi LoaderRimi RimiFullExec WholeImageRimiFull LoaderRimiFull Witness LoaderWitness LoaderWitnessRimi GenWF3.
 Import ListNotations.
 Open Scope Z_scope.
 
@@ -80,6 +80,59 @@ Theorem C09_return_target_is_shadow_slot_partial : forall v L,
     (forall r, 0 <= r -> r <> 1 -> r <> 2 -> r <> 8 -> r <> 28 -> rget s' r = rget s r) /\
     mem s' = mem s /\ dom s' = dom s /\ cfi s' = cfi s.
 Proof. exact rimi_call_epi_exec. Qed.
+
+(* PROVED (Layer B), both RIMI variants, every accepted configuration, decision script and
+   emitted image, EVERY CALL-MAKING METHOD of any call depth, every placement and entry state
+   as in C09_every_rimi_method_contract_partial: CORRUPTING THE MAIN-STACK FRAME DOES NOT CHANGE
+   THE METHOD'S CONTROL FLOW.  Let idx be the positions of the method's call stubs.  For EVERY
+   position p of the method's own body that is not the second instruction of a stub - before /
+   after each of its own instructions, immediately before each call, immediately after each
+   return from a callee - the untampered run reaches p after some k steps.  If AT THAT MOMENT
+   the method's own 24-byte main-stack frame [S - 24, S) is overwritten ARBITRARILY (any memory
+   mem' that agrees with the current one outside the frame; the saved-s0 slot must still read as a
+   64-bit value), the continued run - the rest of the body, every callee still to be called with
+   all its callees, the epilogue - takes EXACTLY as many steps as the untampered continuation and
+   returns to the SAME address, the one saved on the shadow stack; the shadow-stack pointer, sp
+   and ra are back at their entry values.
+   `_partial`: this is the method's own activation up to and including its return (length and
+   target of the run, not the pc sequence itself, which Walk does not record); what the CALLER
+   does afterwards with a corrupted s0, and corruption of a caller's frame while a callee runs,
+   are not covered - they are decided on implementation images by the corruption judge. *)
+Theorem C09_frame_corruption_keeps_control_flow_partial : forall c script img,
+  successful c script img -> rimi c ->
+  forall L, rplaced c img L ->
+  forall id m, nth_error (im_methods img) id = Some m -> m_is_leaf m = false ->
+  forall s, rcode_loaded img s -> pc s = m_addr m -> env_ok (gv c) L (c_data_reg c) s ->
+    let N := need_method c (im_methods img) (max_depth (im_methods img)) id in
+    let SSN := ss_need (im_methods img) (max_depth (im_methods img)) id in
+    let S := rget s 2 in let P := rget s 28 in
+    S mod 8 = 0 -> N <= S < W64 -> stk_lo L <= S - N -> S <= stk_hi L ->
+    P mod 8 = 0 -> SSN <= P < W64 -> ss_lo L <= P - SSN -> P <= ss_hi L ->
+    0 <= rget s 8 < W64 -> 0 <= rget s 1 < W64 ->
+    exists idx, Forall2 (site_ok c (im_methods img) m) idx (m_callees m) /\
+    forall p : nat, (p <= Z.to_nat (m_body m))%nat ->
+      (forall i, In i idx -> p <> (Z.to_nat i - 4 + 1)%nat) ->
+      exists k sk, run (gv c) L k s = (Next sk, k) /\ pc sk = m_addr m + 4 * (4 + Z.of_nat p) /\
+        forall mem', (forall a, a < S - 24 \/ S <= a -> mget mem' a = mget (mem sk) a) ->
+          0 <= load_bytes mem' (S - 24) 8 < W64 ->
+          exists n s1 s2, run (gv c) L n sk = (Next s1, n) /\ run (gv c) L n (set_mem sk mem') = (Next s2, n) /\
+            pc s1 = (u64 (rget s 1 + 0) / 2) * 2 /\ pc s2 = pc s1 /\
+            rget s2 28 = P /\ rget s2 2 = S /\ rget s2 1 = rget s 1.
+Proof. exact every_rimi_method_frame_corruption. Qed.
+
+(* its hypotheses are met by a concrete machine state: a method of the RIMI witness image that
+   has callees, the image loaded word by word *)
+Theorem C09_frame_corruption_nonvacuous :
+  nth_error (im_methods wimg_r) wid_r = Some wm_r /\ m_is_leaf wm_r = false /\ m_callees wm_r <> [] /\ 0 < m_body wm_r /\
+  rimi wcfg_rimiss /\ rplaced wcfg_rimiss wimg_r wL_r /\ rcode_loaded wimg_r ws1_r /\ pc ws1_r = m_addr wm_r /\
+  env_ok (gv wcfg_rimiss) wL_r (c_data_reg wcfg_rimiss) ws1_r /\
+  (let N := need_method wcfg_rimiss (im_methods wimg_r) (max_depth (im_methods wimg_r)) wid_r in
+   let SSN := ss_need (im_methods wimg_r) (max_depth (im_methods wimg_r)) wid_r in
+   let S := rget ws1_r 2 in let P := rget ws1_r 28 in
+   S mod 8 = 0 /\ N <= S < W64 /\ stk_lo wL_r <= S - N /\ S <= stk_hi wL_r /\
+   P mod 8 = 0 /\ SSN <= P < W64 /\ ss_lo wL_r <= P - SSN /\ P <= ss_hi wL_r) /\
+  0 <= rget ws1_r 8 < W64 /\ 0 <= rget ws1_r 1 < W64.
+Proof. exact rimi_frame_corruption_nonvacuous. Qed.
 
 (* PROVED (Layer B), RIMI shadow-stack variant, WHOLE IMAGE over the emitted files
    (LoaderRimi.rimiss_image_from_files): from ImageSem.Init - t3 at the top of the
@@ -161,6 +214,8 @@ Proof. exact method_base_call_reaches. Qed.
 Print Assumptions C09_no_ra_on_main_stack.
 Print Assumptions C09_every_rimi_method_contract_partial.
 Print Assumptions C09_return_target_is_shadow_slot_partial.
+Print Assumptions C09_frame_corruption_keeps_control_flow_partial.
+Print Assumptions C09_frame_corruption_nonvacuous.
 Print Assumptions C09_rimiss_whole_image.
 Print Assumptions C09_rimifull_whole_image.
 Print Assumptions C09_nonvacuous.
